@@ -283,13 +283,17 @@ Proof. reflexivity. Qed.
    in that order, followed by what stays buffered. *)
 Definition step_law (q : msgq) (o : mop) (rv : N) (q' : msgq) (outs : list mout) : Prop :=
   match o with
-  | MAioPut a m true =>
-      items q ++ accepted outs = consumed outs ++ items q' /\ mq_cap q' = mq_cap q /\
-      map snd (mq_putq q) ++ [m] = accepted outs ++ map snd (mq_putq q')
-  | MAioPut _ _ false | MAioGet _ false => q' = q /\ outs = []
-  | MAioGet a true =>
-      items q ++ accepted outs = consumed outs ++ items q' /\ mq_cap q' = mq_cap q /\
-      map snd (mq_putq q) = accepted outs ++ map snd (mq_putq q')
+  | MAioPut a m ok =>
+      (* refused by nni_aio_start (only reached when the operation would have to wait) *)
+      (q' = q /\ outs = [] /\ ok = false /\
+       (mq_putq q <> [] \/ (mq_getq q = [] /\ mq_cap q <= mq_len q))) \/
+      (items q ++ accepted outs = consumed outs ++ items q' /\ mq_cap q' = mq_cap q /\
+       map snd (mq_putq q) ++ [m] = accepted outs ++ map snd (mq_putq q'))
+  | MAioGet a ok =>
+      (q' = q /\ outs = [] /\ ok = false /\
+       (mq_getq q <> [] \/ (mq_len q = 0 /\ mq_putq q = []))) \/
+      (items q ++ accepted outs = consumed outs ++ items q' /\ mq_cap q' = mq_cap q /\
+       map snd (mq_putq q) = accepted outs ++ map snd (mq_putq q'))
   | MTryPut m =>
       (rv = 0%N /\ items q ++ [m] = consumed outs ++ items q' /\ accepted outs = [] /\
        mq_putq q' = mq_putq q) \/
@@ -302,9 +306,15 @@ Definition step_law (q : msgq) (o : mop) (rv : N) (q' : msgq) (outs : list mout)
               mq_getq q' = [] /\ mq_closed q' = true
   | MResize cap fail =>
       (rv = ENOMEM_q /\ q' = q /\ outs = [] /\ fail = true) \/
-      (rv = 0%N /\ mq_cap q' = cap /\ items q = consumed outs ++ items q' /\
-       mq_len q' = Nat.min (mq_len q) (cap + 1) /\ mq_putq q' = mq_putq q /\ mq_getq q' = mq_getq q /\
-       (forall o, In o outs -> exists m, o = MFree m))
+      (* first the oldest messages beyond cap+1 are freed (and only those), then the
+         waiter queues are re-run: the FIFO law holds for the whole step *)
+      (rv = 0%N /\ mq_cap q' = cap /\
+       exists dropped rest, outs = dropped ++ rest /\
+         (forall o, In o dropped -> exists m, o = MFree m) /\
+         length dropped = mq_len q - Nat.min (mq_len q) (cap + 1) /\
+         (forall o, In o rest -> forall m, o <> MFree m) /\
+         items q ++ accepted outs = consumed outs ++ items q' /\
+         map snd (mq_putq q) = accepted outs ++ map snd (mq_putq q'))
   | MNotify => items q' = items q /\ mq_putq q' = mq_putq q /\ outs = []
   end.
 
@@ -329,14 +339,47 @@ Proof.
   inversion D; subst. cbn [accepted]. eapply IH; eauto.
 Qed.
 
+Lemma run_putq_no_free fuel : forall q q' outs m, run_putq fuel q = Some (q', outs) -> ~ In (MFree m) outs.
+Proof.
+  induction fuel as [|f IH]; intros q q' outs m H; cbn [run_putq] in H.
+  { inversion H. intros []. }
+  destruct (mq_putq q) as [|[wa x] wrest]; [inversion H; intros []|].
+  destruct (mq_getq q) as [|ra rrest].
+  - destruct (mq_len q <? mq_cap q); [|inversion H; intros []].
+    destruct (ring_put _ x) as [q1|]; [|discriminate].
+    destruct (run_putq f q1) as [[q2 o2]|] eqn:E; [|discriminate]. inversion H; subst.
+    intros [X|X]; [discriminate|]. eapply IH; eauto.
+  - destruct (run_putq f _) as [[q2 o2]|] eqn:E; [|discriminate]. inversion H; subst.
+    intros [X|[X|X]]; try discriminate. eapply IH; eauto.
+Qed.
+Lemma run_getq_no_free fuel : forall q q' outs m, run_getq fuel q = Some (q', outs) -> ~ In (MFree m) outs.
+Proof.
+  induction fuel as [|f IH]; intros q q' outs m H; cbn [run_getq] in H.
+  { inversion H. intros []. }
+  destruct (mq_getq q) as [|ra rrest]; [inversion H; intros []|].
+  destruct (negb (mq_len q =? 0)).
+  - destruct (ring_get Nat.eqb q) as [[x q1]|]; [|discriminate].
+    destruct (run_getq f _) as [[q2 o2]|] eqn:E; [|discriminate]. inversion H; subst.
+    intros [X|X]; [discriminate|]. eapply IH; eauto.
+  - destruct (mq_putq q) as [|[wa x] wrest]; [inversion H; intros []|].
+    destruct (run_getq f _) as [[q2 o2]|] eqn:E; [|discriminate]. inversion H; subst.
+    intros [X|[X|X]]; try discriminate. eapply IH; eauto.
+Qed.
+
 Theorem msgq_step_spec q o : AllInv q ->
   exists rv q' outs, msgq_step true q o = Some (rv, q', outs) /\ AllInv q' /\ step_law q o rv q' outs.
 Proof.
   intros (HI & HQ & HB). pose proof HI as (Hc & Hl & Hg & Hp).
   destruct o as [a m ok|a ok|m|a rv0| |cap fail|]; cbn [msgq_step].
   - (* aio_put *)
-    destruct ok; cbn [negb].
-    2:{ exists 0%N, q, []. split; [reflexivity|]. split; [split; auto|]. cbn. auto. }
+    match goal with |- context [if ?b then _ else _] => destruct b eqn:MS end.
+    { exists 0%N, q, []. split; [reflexivity|]. split; [split; auto|]. cbn [step_law]. left.
+      apply andb_true_iff in MS as [MS OK]. destruct ok; [discriminate|].
+      split; [reflexivity|]. split; [reflexivity|]. split; [reflexivity|].
+      apply orb_true_iff in MS as [MS|MS].
+      - left. destruct (mq_putq q); [discriminate|congruence].
+      - right. apply andb_true_iff in MS as [G L]. apply Nat.leb_le in L.
+        destruct (mq_getq q); [auto|discriminate]. }
     set (q1 := set_qs q (mq_putq q ++ [(a, m)]) (mq_getq q)).
     destruct (run_putq_spec (length (mq_putq q1)) q1 (set_qs_inv _ _ _ HI)) as
         (q2 & outs & R & HI2 & (Hi & Hw) & Hc2 & Ha2 & Hcl2 & Hmono & Hmax & Hgl & Hge & Hfin).
@@ -348,12 +391,18 @@ Proof.
         assert (Hq: mq_getq q <> []) by (intros E; apply Hne, Hge; exact E).
         apply HQ; exact Hq.
       * unfold BInv in *. unfold q1 in *; simp_m. lia.
-    + cbn [step_law]. rewrite notify_items. split; [exact Hi|]. split.
+    + cbn [step_law]. right. rewrite notify_items. split; [exact Hi|]. split.
       * simp_m. unfold q1 in Hc2; simp_m. exact Hc2.
       * simp_m. rewrite <- Hw. unfold q1; simp_m. rewrite map_app. reflexivity.
   - (* aio_get *)
-    destruct ok; cbn [negb].
-    2:{ exists 0%N, q, []. split; [reflexivity|]. split; [split; auto|]. cbn. auto. }
+    match goal with |- context [if ?b then _ else _] => destruct b eqn:MS end.
+    { exists 0%N, q, []. split; [reflexivity|]. split; [split; auto|]. cbn [step_law]. left.
+      apply andb_true_iff in MS as [MS OK]. destruct ok; [discriminate|].
+      split; [reflexivity|]. split; [reflexivity|]. split; [reflexivity|].
+      apply orb_true_iff in MS as [MS|MS].
+      - left. destruct (mq_getq q); [discriminate|congruence].
+      - right. apply andb_true_iff in MS as [L P]. apply Nat.eqb_eq in L.
+        destruct (mq_putq q); [auto|discriminate]. }
     set (q1 := set_qs q (mq_putq q) (mq_getq q ++ [a])).
     destruct (run_getq_spec (length (mq_getq q1)) q1 (set_qs_inv _ _ _ HI)) as
         (q2 & outs & R & HI2 & (Hi & Hw) & Hc2 & Ha2 & Hcl2 & Hmono & Hfin).
@@ -361,7 +410,7 @@ Proof.
     + apply notify_inv. split; [exact HI2|]. split.
       * intros Hne. apply Hfin; auto.
       * unfold BInv in *. unfold q1 in *; simp_m. lia.
-    + cbn [step_law]. rewrite notify_items. split; [exact Hi|]. split.
+    + cbn [step_law]. right. rewrite notify_items. split; [exact Hi|]. split.
       * simp_m. unfold q1 in Hc2; simp_m. exact Hc2.
       * exact Hw.
   - (* tryput *)
@@ -421,43 +470,67 @@ Proof.
       cbn. left. auto. }
     destruct (drop_excess_spec is_geb (mq_len q) cap good_geb q HI (le_n _)) as
         (q1 & outs & D & HI1 & L1 & Hit & Hc1 & Hp1 & Hg1 & Ha1 & Hcl1 & Hfree).
-    rewrite D. destruct (mq_alloc q <? cap + 2) eqn:EG; cbn [negb].
-    + (* grow: copy into the new array *)
-      apply Nat.ltb_lt in EG.
-      set (qn := mkMsgq cap 0 0 0 (mq_closed q1) (repeat 0%N (cap + 2)) (mq_putq q1) (mq_getq q1)
-                        (mq_sendable q1) (mq_recvable q1)).
-      assert (HIn: MInv qn).
-      { unfold MInv, mq_alloc, qn. simp_m. rewrite repeat_length. repeat split; try lia.
-        rewrite Nat.mod_small; lia. }
-      pose proof HI1 as (_ & _ & Hg1' & _).
-      destruct (copy_ring_spec (mq_len q1) (mq_cells q1) (mq_get q1) qn Hg1' HIn) as
-          (q2 & C & HI2 & Hit2 & Hl2 & Hc2 & Hp2 & Hg2 & Ha2 & Hcl2).
-      { unfold mq_alloc, qn. simp_m. rewrite repeat_length. lia. }
-      rewrite C. exists 0%N, q2, outs. split; [reflexivity|]. split.
-      * split; [exact HI2|]. split.
-        -- intros Hne. rewrite Hg2 in Hne. unfold qn in Hne; simp_m. rewrite Hg1 in Hne.
-           destruct (HQ Hne) as [L0 W0]. rewrite Hp2. unfold qn; simp_m. rewrite Hp1.
-           split; [|exact W0]. unfold qn in Hl2; simp_m. lia.
-        -- unfold BInv. rewrite Hl2, Hc2. unfold qn; simp_m. lia.
-      * cbn [step_law]. right. split; [reflexivity|].
-        split; [rewrite Hc2; reflexivity|]. split.
-        { rewrite Hit, Hit2. unfold items at 2. unfold qn at 1 2 3. simp_m. cbn [window seq map app].
-          reflexivity. }
-        split; [rewrite Hl2; unfold qn; simp_m; lia|].
-        split; [rewrite Hp2; unfold qn; simp_m; exact Hp1|].
-        split; [rewrite Hg2; unfold qn; simp_m; exact Hg1|]. exact Hfree.
-    + (* no new array: only the capacity changes *)
-      apply Nat.ltb_ge in EG.
-      eexists _, _, _. split; [reflexivity|]. split.
-      * pose proof HI1 as (A1 & A2 & A3 & A4). split.
+    rewrite D.
+    (* the resized queue q2: same items, waiters; capacity cap *)
+    assert (RES: exists q2,
+      (if negb (mq_alloc q <? cap + 2)
+       then Some (mkMsgq cap (mq_len q1) (mq_get q1) (mq_put q1) (mq_closed q1) (mq_cells q1)
+                         (mq_putq q1) (mq_getq q1) (mq_sendable q1) (mq_recvable q1))
+       else copy_ring (mq_len q1) (mq_cells q1) (mq_get q1)
+              (mkMsgq cap 0 0 0 (mq_closed q1) (repeat 0%N (cap + 2)) (mq_putq q1) (mq_getq q1)
+                      (mq_sendable q1) (mq_recvable q1))) = Some q2 /\
+      MInv q2 /\ items q2 = items q1 /\ mq_len q2 = mq_len q1 /\ mq_cap q2 = cap /\
+      mq_putq q2 = mq_putq q1 /\ mq_getq q2 = mq_getq q1).
+    { destruct (mq_alloc q <? cap + 2) eqn:EG; cbn [negb].
+      - apply Nat.ltb_lt in EG.
+        set (qn := mkMsgq cap 0 0 0 (mq_closed q1) (repeat 0%N (cap + 2)) (mq_putq q1) (mq_getq q1)
+                          (mq_sendable q1) (mq_recvable q1)).
+        assert (HIn: MInv qn).
+        { unfold MInv, mq_alloc, qn. simp_m. rewrite repeat_length. repeat split; try lia.
+          rewrite Nat.mod_small; lia. }
+        pose proof HI1 as (_ & _ & Hg1' & _).
+        destruct (copy_ring_spec (mq_len q1) (mq_cells q1) (mq_get q1) qn Hg1' HIn) as
+            (q2 & C & HI2 & Hit2 & Hl2 & Hc2 & Hp2 & Hg2 & Ha2 & Hcl2).
+        { unfold mq_alloc, qn. simp_m. rewrite repeat_length. lia. }
+        exists q2. split; [exact C|]. split; [exact HI2|]. unfold qn in *; simp_m.
+        split; [rewrite Hit2; unfold items at 1; simp_m; reflexivity|]. repeat split; auto; lia.
+      - apply Nat.ltb_ge in EG. eexists. split; [reflexivity|].
+        pose proof HI1 as (A1 & A2 & A3 & A4). split.
         { unfold MInv, mq_alloc in *. simp_m. repeat split; auto; lia. }
-        split.
-        -- intros Hne. simp_m. rewrite Hg1 in Hne. destruct (HQ Hne) as [L0 W0].
-           rewrite Hp1. split; [lia|exact W0].
-        -- unfold BInv. simp_m. lia.
-      * cbn [step_law]. right. split; [reflexivity|]. simp_m.
-        split; [reflexivity|]. split; [exact Hit|]. split; [exact L1|].
-        split; [exact Hp1|]. split; [exact Hg1|]. exact Hfree.
+        unfold items. simp_m. repeat split; auto. }
+    destruct RES as (q2 & -> & HI2 & Hit2 & Hl2 & Hc2 & Hp2 & Hg2).
+    assert (Pre2: mq_getq q2 <> [] -> mq_len q2 = 0).
+    { intros Hne. rewrite Hg2, Hg1 in Hne. destruct (HQ Hne) as [L0 _]. lia. }
+    destruct (run_putq_spec (length (mq_putq q2)) q2 HI2 Pre2) as
+        (q3 & o3 & R3 & HI3 & (Hi3 & Hw3) & Hc3 & Ha3 & Hcl3 & Hmono3 & Hmax3 & Hgl3 & Hge3 & Hfin3).
+    rewrite R3.
+    destruct (run_getq_spec (length (mq_getq q3)) q3 HI3) as
+        (q4 & o4 & R4 & HI4 & (Hi4 & Hw4) & Hc4 & Ha4 & Hcl4 & Hmono4 & Hfin4).
+    rewrite R4. exists 0%N, (run_notify q4), (outs ++ o3 ++ o4). split; [reflexivity|].
+    assert (AccD: accepted outs = []).
+    { clear - Hfree. induction outs as [|o r IH]; [reflexivity|].
+      destruct (Hfree o (or_introl eq_refl)) as [m ->]. cbn. apply IH. intros o' Ho'. apply Hfree. now right. }
+    split.
+    + apply notify_inv. split; [exact HI4|]. split.
+      * intros Hne. apply Hfin4; auto.
+      * unfold BInv. lia.
+    + cbn [step_law]. right. split; [reflexivity|]. split; [simp_m; lia|].
+      exists outs, (o3 ++ o4). split; [reflexivity|]. split; [exact Hfree|]. split.
+      { (* exactly the messages that no longer fit *)
+        assert (LL: length (consumed outs) = length outs).
+        { clear - Hfree. induction outs as [|o r IH]; [reflexivity|].
+          destruct (Hfree o (or_introl eq_refl)) as [m ->]. cbn. f_equal. apply IH. intros o' Ho'. apply Hfree. now right. }
+        rewrite <- LL.
+        assert (LI: forall x, MInv x -> length (items x) = mq_len x) by (intros; unfold items; apply window_length).
+        pose proof (f_equal (@length N) Hit) as E. rewrite app_length, (LI q HI), (LI q1 HI1) in E. lia. }
+      split.
+      { intros o Hin m0 ->. apply in_app_or in Hin as [Hin|Hin].
+        - eapply run_putq_no_free; eauto.
+        - eapply run_getq_no_free; eauto. }
+      rewrite notify_items. rewrite !accepted_app, !consumed_app, AccD. cbn [app]. split.
+      * rewrite Hit, <- Hit2. rewrite <- !app_assoc. f_equal.
+        rewrite app_assoc, Hi3, <- app_assoc. f_equal. exact Hi4.
+      * simp_m. rewrite <- Hp1, <- Hp2, Hw3, <- app_assoc. f_equal. exact Hw4.
   - (* notify *)
     exists 0%N, (run_notify q), []. split; [reflexivity|]. split; [apply notify_inv; split; auto|].
     cbn. auto.
@@ -476,24 +549,17 @@ Lemma step_law_uniform q o rv q' outs :
   AllInv q' -> step_law q o rv q' outs -> items q ++ step_acc o rv outs = consumed outs ++ items q'.
 Proof.
   intros HI' L. unfold step_acc. destruct o as [a m ok|a ok|m|a rv0| |cap fail|]; cbn [step_law] in L.
-  - destruct ok.
-    + destruct L as (L & _). now rewrite app_nil_r.
-    + destruct L as (-> & ->). cbn. now rewrite app_nil_r.
-  - destruct ok.
-    + destruct L as (L & _). now rewrite app_nil_r.
-    + destruct L as (-> & ->). cbn. now rewrite app_nil_r.
+  - destruct L as [(-> & -> & _)|(L & _)]; [cbn; now rewrite app_nil_r|now rewrite app_nil_r].
+  - destruct L as [(-> & -> & _)|(L & _)]; [cbn; now rewrite app_nil_r|now rewrite app_nil_r].
   - destruct L as [(-> & L & A & _)|(Hrv & -> & -> & _)].
     + rewrite A. cbn. exact L.
     + destruct (rv =? 0)%N eqn:E; [apply N.eqb_eq in E; congruence|]. cbn. now rewrite app_nil_r.
   - destruct L as (L & C & A & _). rewrite C, A, L. cbn. now rewrite app_nil_r.
   - destruct L as (C & A & L0 & _). rewrite C, A. cbn. rewrite app_nil_r.
     unfold items at 3. rewrite L0. cbn. now rewrite app_nil_r.
-  - destruct L as [(-> & -> & -> & _)|(-> & _ & L & _ & _ & _ & Hfree)].
+  - destruct L as [(-> & -> & -> & _)|(-> & _ & dropped & rest & -> & _ & _ & _ & L & _)].
     + cbn. now rewrite app_nil_r.
-    + assert (A: accepted outs = []).
-      { clear - Hfree. induction outs as [|o r IH]; [reflexivity|].
-        destruct (Hfree o (or_introl eq_refl)) as [m ->]. cbn. apply IH. intros o' Ho'. apply Hfree. now right. }
-      rewrite A. cbn. rewrite app_nil_r. exact L.
+    + rewrite app_nil_r. exact L.
   - destruct L as (L & _ & ->). cbn. now rewrite app_nil_r, L.
 Qed.
 
@@ -543,15 +609,15 @@ Proof.
   destruct HI as (HM & HQ & HB). destruct HI1 as (HM1 & HQ1 & HB1).
   assert (LL: forall q, MInv q -> length (items q) = mq_len q) by (intros; unfold items; apply window_length).
   destruct o as [a m ok|a ok|m|a rv0| |cap fail|]; cbn [step_law] in L.
-  - destruct ok; [|destruct L as (-> & _); exact Hle].
-    cbn [msgq_step negb] in S.
+  - cbn [msgq_step] in S.
+    match type of S with context [if ?b then _ else _] => destruct b end; [inversion S; subst; exact Hle|].
     set (q1 := set_qs q (mq_putq q ++ [(a, m)]) (mq_getq q)) in *.
     destruct (run_putq_spec (length (mq_putq q1)) q1 (set_qs_inv _ _ _ HM)) as
         (q2 & outs2 & R & _ & _ & Hc2 & _ & _ & _ & Hmax & _).
     { unfold q1; simp_m. intros Hne. apply HQ; auto. }
     rewrite R in S. inversion S; subst. simp_m. unfold q1 in *; simp_m. lia.
-  - destruct ok; [|destruct L as (-> & _); exact Hle].
-    cbn [msgq_step negb] in S.
+  - cbn [msgq_step] in S.
+    match type of S with context [if ?b then _ else _] => destruct b end; [inversion S; subst; exact Hle|].
     set (q1 := set_qs q (mq_putq q) (mq_getq q ++ [a])) in *.
     destruct (run_getq_spec (length (mq_getq q1)) q1 (set_qs_inv _ _ _ HM)) as
         (q2 & outs2 & R & _ & _ & Hc2 & _ & _ & Hmono & _).
